@@ -277,3 +277,14 @@ fn builder_is_faithful() {
     assert!(c.latency_rate == lr && c.min_latency == min_l && c.max_latency == max_l, "[C19.config_latency_used] the configured latency rate and bounds reach the layer");
     std::mem::forget(layer);
 }
+
+/// C20 readiness clause for the chaos layer: see svc::check_readiness_passthrough.
+#[kani::proof]
+#[kani::unwind(4)]
+#[kani::stub(std::time::Instant::now, tokio::model::std_instant_now)]
+fn readiness_passthrough() {
+    let mut c = mk(any_rate(), any_rate(), Duration::ZERO, Duration::ZERO, Some(kani::any()), svc::any_script());
+    svc::check_readiness_passthrough(&mut c);
+    assert!(rg().draws == 0, "[C19.no_draw_for_readiness] polling readiness consumes no randomness");
+    std::mem::forget(c);
+}
